@@ -1,0 +1,21 @@
+// SPDX-FileCopyrightText: 2026 The Pion community <https://pion.ly>
+// SPDX-License-Identifier: MIT
+
+//go:build verif
+
+package twcc
+
+// VerifSizes returns the capacity of the arrival time ring and the span of sequence numbers
+// it covers. The recorder is owned by the loop goroutine: call it only while that goroutine
+// is idle (verification harness only).
+func (s *SenderInterceptor) VerifSizes() map[string]int {
+	s.m.Lock()
+	r := s.recorder
+	s.m.Unlock()
+	if r == nil {
+		return map[string]int{"cap": 0, "span": 0}
+	}
+	m := &r.arrivalTimeMap
+
+	return map[string]int{"cap": m.capacity(), "span": int(m.endSequenceNumber - m.beginSequenceNumber)}
+}
